@@ -372,10 +372,14 @@ from vlib import q as Q
 def gen_vec(rng, n):
     shapes = N.all_shapes(3)
     for c in range(n):
-        op = ["p2k", "k2p", "normalize", "scale_last", "p2h", "h2p", "affine_coords", "projective_coords"][c % 8]
+        op = ["p2k", "k2p", "normalize", "scale_last", "p2h", "h2p", "affine_coords", "projective_coords", "segment_aux"][c % 9]
         o = rng.choice(shapes)
         d = rng.choice([1, 2, 3])
         cnt = int(np.prod(o)) if o else 1
+        if op == "segment_aux":
+            from props import _hist as HI
+            yield {"op": op, "e": HI._rcomp(rng, "segment", o, rng.choice([2, 3]))}
+            continue
         if op == "scale_last":
             x = N.small(rng, o + [d])
             f = N.small(rng, o if o else [1])
@@ -433,6 +437,9 @@ def run_vec(inp):
         r = H.poincare_to_kleinian(N.dec(inp["x"]))
     elif op == "k2p":
         r = H.kleinian_to_poincare(N.dec(inp["x"]))
+    elif op == "segment_aux":
+        with np.errstate(all="ignore"):
+            r = H.Segment(N.dec(inp["e"])).aux_data
     elif op == "p2h":
         r = H.poincare_to_halfspace(N.dec(inp["x"]))
     elif op == "h2p":
@@ -478,7 +485,7 @@ def judge_vec(inp, obs, lr):
             if not ok:
                 return {"expected": {"model_row": b.tolist()}, "observed": {"impl_row": a.tolist()}, "tags": {"op": "normalize", "null_row": nn == 0}}
         return None
-    if not O.allclose(r, m, 1e-11):
+    if not O.allclose(r, m, 1e-8 if inp["op"] == "segment_aux" else 1e-11):
         return {"expected": {"model": m.tolist()}, "observed": obs["r"], "tags": {"op": inp["op"]}}
     return None
 
@@ -499,9 +506,9 @@ CLAUSES = [
 
 CLAUSES += [
     Clause("vectorised_corr", "corr", gen_vec, run_vec, judge_vec, lean=lean_vec, site="hyperbolic.poincare_to_kleinian/kleinian_to_poincare, utils.normalize, (x.T*f.T).T",
-           budget={"quick": 320, "thorough": 6000},
+           budget={"quick": 360, "thorough": 6000},
            what="the literal ND models of the vectorised last-axis formulas (poincare_to_kleinian, kleinian_to_poincare, poincare_to_halfspace, halfspace_to_poincare, affine_coords and "
-                "projective_coords in every chart, in-place utils.normalize incl. null rows, the (x.T*f.T).T idiom) "
+                "projective_coords in every chart, Segment._compute_aux_data, in-place utils.normalize incl. null rows, the (x.T*f.T).T idiom) "
                 "vs the numpy code on exact rational inputs of outer rank 0-3 (rank-0: the atleast_1d branch)"),
 ]
 CLAUSES += O.c04_oracles()
